@@ -486,3 +486,166 @@ _base_scn_ak = scenarios
 
 def scenarios():
     return _base_scn_ak() + [add_key()]
+
+
+def unload(loaded):
+    """PGPKeyring.unload(key) on a concrete shape with symbolic links: two alias layers {a1, a2} and {a1, a3} whose entries lead to the key,
+    to its subkey or to another key (symbolic). A key object that is not in the table changes nothing. Otherwise: the key leaves the
+    table and the top-level lists; every alias entry that led to it is gone and every entry that led elsewhere is still there, in its
+    layer, with its id; an alias that lost an entry but is still known is re-sorted; a primary key takes its subkeys with it
+    (their entries go the same way). `_sort_alias` is a callee (own contract)."""
+    label = 'C19/PGPKeyring.unload[%s]' % ('key object in the table' if loaded else 'key object not in the table')
+    KEYC = 'pgpy.pgp.PGPKey'
+
+    def gen(repo):
+        r = scn.Run(repo, RING, 'unload', label)
+        ex, st = r.ex, r.st
+        ring = E.VObj(RING, 'ring')
+        key, sub, other = E.VObj(KEYC, 'key'), E.VObj(KEYC, 'sub'), E.VObj(KEYC, 'other')
+        ex._ids = {'key': 1001, 'sub': 1002, 'other': 1003}
+        primary = z3.Bool('key_is_primary')
+        r.hook(KEYC, 'is_primary', lambda ex, st, o, a: [(st, E.VBool(primary if o.ref == 'key' else z3.BoolVal(o.ref == 'other')))])
+        r.hook(KEYC, 'subkeys', lambda ex, st, o, a: [(st, E.VDict([(E.VStr(s='SUBID'), sub)]) if o.ref == 'key' else E.VDict([]))])
+        tab = [(E.VInt(1002), sub), (E.VInt(1003), other)] + ([(E.VInt(1001), key)] if loaded else [])
+        r.set('ring', '_keys', E.VDict(tab))
+        r.set('ring', '_pubkeys', ex.new_list(st, [E.VInt(1003)] + ([E.VInt(1001)] if loaded else [])))
+        r.set('ring', '_privkeys', ex.new_list(st, []))
+        X = {n: z3.Int('entry_%s_leads_to' % n) for n in ('L0_a1', 'L0_a2', 'L1_a1', 'L1_a3')}
+        for x in X.values():
+            st.pc.append(z3.Or(x == 1001, x == 1002, x == 1003))
+        st.pc.append(X['L0_a1'] != X['L1_a1'])          # invariant: an alias leads to an id in one layer only
+        L0 = E.VDict([(E.VStr(s='a1'), E.VInt(X['L0_a1'])), (E.VStr(s='a2'), E.VInt(X['L0_a2']))])
+        L1 = E.VDict([(E.VStr(s='a1'), E.VInt(X['L1_a1'])), (E.VStr(s='a3'), E.VInt(X['L1_a3']))])
+        r.set('ring', '_aliases', ex.new_list(st, [L0, L1]))
+
+        def ring_contains(ex, st, o, a):
+            lst = ex.items(st.heap[('ring', '_aliases')], st)
+            terms = [ex.eq(a[0], kk, st) for m in lst if isinstance(m, E.VDict) for kk, _ in m.of(st)]
+            return [(st, E.VBool(z3.simplify(z3.Or(*terms)) if terms else z3.BoolVal(False)))]
+        r.hook(RING, '__contains__', scn.method_hook(ring_contains))
+
+        def sort_alias_(ex, st, o, a):
+            st.ghost['sorted'] = st.ghost.get('sorted', ()) + (a[0].s if isinstance(a[0], E.VStr) else None,)
+            return [(st, E.VNone())]
+        r.hook(RING, '_sort_alias', scn.method_hook(sort_alias_))
+        for pi, (s, v) in enumerate(r.call(ring, [key])):
+            if isinstance(v, E.Raise):
+                r.oblige(s, 'safety(%s)/p%d' % (v.exc.split(':')[0], pi), z3.BoolVal(False), v.where)
+                continue
+            keys_now = [k.conc() for k, _ in s.heap[('ring', '_keys')].of(s)] if isinstance(s.heap[('ring', '_keys')], E.VDict) else None
+            pubs = [x.conc() for x in ex.items(s.heap[('ring', '_pubkeys')], s)]
+            layers = ex.items(s.heap[('ring', '_aliases')], s)
+            cur = {}
+            for li, m in enumerate(layers[:2]):
+                for kk, vv in (m.of(s) if isinstance(m, E.VDict) else []):
+                    cur['L%d_%s' % (li, kk.s)] = ex.as_int(vv)
+            if not loaded:
+                r.oblige(s, 'a-key-object-that-is-not-in-the-table-changes-nothing/p%d' % pi,
+                         z3.And(z3.BoolVal(sorted(keys_now) == [1002, 1003] and pubs == [1003] and sorted(cur) == sorted(X) and not s.ghost.get('sorted')),
+                                *[cur[n] == X[n] for n in X if n in cur]))
+                continue
+            gone = lambda x: z3.Or(x == 1001, z3.And(primary, x == 1002))          # entries that must go: the key's, and its subkey's when it is primary
+            r.oblige(s, 'the-key-leaves-the-table-and-the-top-level-lists;a-primary-key-takes-its-subkey-with-it/p%d' % pi,
+                     z3.And(z3.BoolVal(1001 not in keys_now and 1003 in keys_now and pubs == [1003]), z3.BoolVal(1002 not in keys_now) == primary))
+            for n in X:
+                if n in cur:
+                    r.oblige(s, 'entry-%s-is-still-there=>it-led-elsewhere,and-still-leads-there/p%d' % (n, pi), z3.And(z3.Not(gone(X[n])), cur[n] == X[n]))
+                else:
+                    r.oblige(s, 'entry-%s-is-gone=>it-led-to-the-unloaded-key(or-its-subkey)/p%d' % (n, pi), gone(X[n]))
+            srt = s.ghost.get('sorted', ())
+            # a1 is the only alias with two entries: it is re-sorted iff exactly one of them went (and the other is still known)
+            g0, g1 = gone(X['L0_a1']), gone(X['L1_a1'])
+            r.oblige(s, 'a1-is-re-sorted-when-it-lost-one-of-its-two-entries/p%d' % pi, z3.Implies(z3.Xor(g0, g1), z3.BoolVal('a1' in srt)))
+            r.oblige(s, 'only-aliases-that-lost-an-entry-and-are-still-known-are-re-sorted/p%d' % pi,
+                     z3.And(z3.BoolVal(all(x == 'a1' for x in srt)), z3.Implies(z3.BoolVal('a1' in srt), z3.Or(g0, g1))))
+        return r.result()
+    return Scenario(label, RING + '.unload', gen, props=('C19',))
+
+
+_base_scn_ul = scenarios
+
+
+def scenarios():
+    return _base_scn_ul() + [unload(True), unload(False)]
+
+
+def ring_contains():
+    """PGPKeyring.__contains__(identifier): true exactly when some layer has the identifier as it is, or with its spaces removed"""
+    label = 'C19/PGPKeyring.__contains__'
+
+    def gen(repo):
+        r = scn.Run(repo, RING, '__contains__', label)
+        ex, st = r.ex, r.st
+        ring = E.VObj(RING, 'ring')
+        names = [['a1', 'a2'], ['a1', 'a3'], []]
+        layers = [E.VDict([(E.VStr(s=n), E.VInt(z3.Int('id_%d_%s' % (i, n)))) for n in ns]) for i, ns in enumerate(names)]
+        r.set('ring', '_aliases', ex.new_list(st, layers))
+        A = z3.Const('IDENTIFIER', B)
+        NOSP = z3.Function("STR_REPLACE[' '->'']", B, B)
+        lit = lambda t: ex.strseq(E.VStr(s=t))
+        known = sorted({n for ns in names for n in ns})
+        for pi, (s, v) in enumerate(r.call(ring, [E.VStr(z=A)])):
+            if isinstance(v, E.Raise):
+                r.oblige(s, 'safety(%s)/p%d' % (v.exc.split(':')[0], pi), z3.BoolVal(False), v.where)
+                continue
+            r.oblige(s, 'known-iff-some-layer-has-it-as-it-is-or-without-its-spaces/p%d' % pi,
+                     ex.truth(v, s) == z3.Or(*([A == lit(n) for n in known] + [NOSP(A) == lit(n) for n in known])))
+        return r.result()
+    return Scenario(label, RING + '.__contains__', gen, props=('C19',))
+
+
+_base_scn_rc = scenarios
+
+
+def scenarios():
+    return _base_scn_rc() + [ring_contains()]
+
+
+def ring_load():
+    """PGPKeyring.load(*args): every argument (or every element of a list / tuple argument) is a key object, a file name or a blob; a blob
+    (file) is parsed by PGPKey.from_blob (from_file) and yields a key plus the other keys of the blob; every such key is added with
+    _add_key, in order; the result lists the fingerprints of all of them and of their subkeys (each once)."""
+    label = 'C19/PGPKeyring.load'
+    KEYC, FPC = 'pgpy.pgp.PGPKey', 'pgpy.types.Fingerprint'
+
+    def gen(repo):
+        r = scn.Run(repo, RING, 'load', label)
+        ex, st = r.ex, r.st
+        ring = E.VObj(RING, 'ring')
+        k1, k2, k3, s1 = [E.VObj(KEYC, n) for n in ('given-object', 'first-of-the-blob', 'second-of-the-blob', 'subkey-of-the-given-object')]
+        BLOB = E.VBytes(z3.Const('BLOB', B))
+        FP = {o.ref: E.VStr(s='FPR-' + o.ref, cls=FPC) for o in (k1, k2, k3, s1)}
+        r.hook(KEYC, 'fingerprint', lambda ex, st, o, a: [(st, FP[o.ref])])
+        r.hook(KEYC, 'subkeys', lambda ex, st, o, a: [(st, E.VDict([(E.VStr(s='SUBID'), s1)]) if o.ref == 'given-object' else E.VDict([]))])
+
+        def from_blob(ex, st, c, a):
+            st.ghost['parsed'] = st.ghost.get('parsed', ()) + (a[0],)
+            return [(st, E.VTuple([k2, E.VDict([(E.VTuple([E.VStr(s='KEYID-2'), E.VBool(True)]), k3)])]))]
+        r.hook(KEYC, 'from_blob', scn.method_hook(from_blob))
+        ex.hooks[('ext', 'os.path.isfile')] = lambda ex, st, o, a: [(st, E.VBool(False))]
+
+        def add_key_(ex, st, o, a):
+            st.ghost['added'] = st.ghost.get('added', ()) + (a[0],)
+            return [(st, E.VNone())]
+        r.hook(RING, '_add_key', scn.method_hook(add_key_))
+        for pi, (s, v) in enumerate(r.call(ring, [k1, ex.new_list(st, [BLOB])])):
+            if isinstance(v, E.Raise):
+                r.oblige(s, 'safety(%s)/p%d' % (v.exc.split(':')[0], pi), z3.BoolVal(False), v.where)
+                continue
+            added = [getattr(x, 'ref', None) for x in s.ghost.get('added', ())]
+            r.oblige(s, 'every-key-is-added,in-order:the-object,then-the-key-of-the-blob,then-the-other-keys-of-the-blob/p%d' % pi,
+                     z3.BoolVal(added == ['given-object', 'first-of-the-blob', 'second-of-the-blob']))
+            r.oblige(s, 'the-blob-is-parsed-once/p%d' % pi, z3.BoolVal(len(s.ghost.get('parsed', ())) == 1 and s.ghost['parsed'][0] is BLOB))
+            items = ex.items(v, s) if isinstance(v, (E.VList, E.VTuple, E.VSet)) else None
+            got = sorted(x.s for x in items) if items is not None and all(isinstance(x, E.VStr) and isinstance(x.s, str) for x in items) else None
+            r.oblige(s, 'returns-the-fingerprints-of-all-of-them-and-of-their-subkeys,each-once/p%d' % pi,
+                     z3.BoolVal(got == sorted('FPR-' + n for n in ('given-object', 'first-of-the-blob', 'second-of-the-blob', 'subkey-of-the-given-object'))))
+        return r.result()
+    return Scenario(label, RING + '.load', gen, props=('C19',))
+
+
+_base_scn_ld = scenarios
+
+
+def scenarios():
+    return _base_scn_ld() + [ring_load()]
